@@ -102,20 +102,42 @@ def gen_pairs(rng, mode, n_schemas, extra_opts=None):
         inh = gen.Inhabit(rng, S, cbor)
         root = S.rules[0][2]
         first = None
-        for j in range(6):
+        for j in range(8):
             if j >= 4:
-                # targeted near-misses: the empty container and a single deletion from the first inhabitant
+                # targeted near-misses: the empty container, a single deletion from the first inhabitant, a value of another
+                # class at one position (the key kept), one entry / element added
                 if first is None or first[0] not in ("map", "arr") or not first[1]:
                     break
                 if j == 4:
                     v = (first[0], [])
-                else:
+                elif j == 5:
                     k = rng.randrange(len(first[1]))
                     v = (first[0], first[1][:k] + first[1][k + 1:])
+                elif j == 6:
+                    k = rng.randrange(len(first[1]))
+                    l = list(first[1])
+                    if first[0] == "map":
+                        nv = gen.rand_scalar(rng, cbor)
+                        if nv == l[k][1]:
+                            continue
+                        l[k] = (l[k][0], nv)
+                    else:
+                        l[k] = gen.rand_scalar(rng, cbor)
+                    v = (first[0], l)
+                else:
+                    l = list(first[1])
+                    if first[0] == "map":
+                        nk = rng.choice([("txt", rng.choice(gen.KEYS + ["zz"]))] + ([("int", rng.choice([1, 2, -1])), ("flt", rng.choice([6, 10]))] if cbor else []))
+                        if any(a == nk for a, _ in l):
+                            continue
+                        l.insert(rng.randrange(len(l) + 1), (nk, gen.rand_scalar(rng, cbor)))
+                    else:
+                        l.insert(rng.randrange(len(l) + 1), gen.rand_scalar(rng, cbor))
+                    v = (first[0], l)
                 if (not cbor and not ast.is_json_value(v)) or (cbor and not ast.is_cbor_value(v)):
                     continue
                 pairs.append((S, v))
-                classes.append("near-miss-deletion")
+                classes.append({4: "near-miss-empty", 5: "near-miss-deletion", 6: "near-miss-value", 7: "near-miss-addition"}[j])
                 continue
             v = inh.ty(root)
             if first is None:
@@ -154,9 +176,9 @@ def run(prop, prop_file, mode, tier, seed):
     cbor = mode == "cbor"
     replay_fixed(res, prop, mode, drv)
     replay_known(res, prop, mode, drv)
-    n_schemas = (1500 if tier == "quick" else 40000) * (2 if not proved else 1)
+    n_schemas = (5000 if tier == "quick" else 40000) * (2 if not proved else 1)
     pairs, classes, stats = gen_pairs(rng, mode, n_schemas)
-    sp, n_ss, n_sd = small_scope(seed, 60 if tier == "quick" else None)
+    sp, n_ss, n_sd = small_scope(seed, 150 if tier == "quick" else None)
     if cbor:
         sp = [(S, v) for S, v in sp]
     n_gen = len(pairs)
